@@ -186,6 +186,28 @@ theorem lookupItem_eq {s : Store} (hM : MapsOK K s) (ks : Option (List Key))
           | ok p => simp only [bind, Except.bind]; exact arrGet_eq ms p
 
 
+omit hA in
+/-- a map or array called as a function: the Python transcriptions and the F&O definitions agree,
+whatever the (computed) key is — by `key_identity_all` -/
+theorem callFn_eq (s : Store) (f arg : Seq) :
+    callFn (pyDialect false) s f arg = callFn specDialect s f arg := by
+  unfold callFn
+  split
+  · rename_i key
+    split
+    · rename_i a
+      cases hs : s[a]? with
+      | none => rfl
+      | some o =>
+        cases o with
+        | map es =>
+          simp only [pyDialect, specDialect]
+          rw [mapGet_eq_spec es key fun e _ => (key_identity_all e.1 key).1]
+        | arr ms =>
+          simp only [pyDialect, specDialect, arrIndex_eq, arrGet_eq]
+    · rfl
+  · rfl
+
 /-- the literal keys of the operation are in `K`, and no `?` lookup has a boolean key -/
 def OpOK (K : List Key) (op : Op) : Prop :=
   (∀ k ∈ opKeys op, k ∈ K) ∧ opIsDeq op = false
@@ -287,6 +309,9 @@ theorem evalOp_refine (st : St) (hM : MapsOK K st.store) (op : Op) (hop : OpOK K
   | aForEachPair a b f => rfl
   | mForEachF m f => rfl
   | deq a b => simp [opIsDeq] at hdeq
+  | call f k first => simp only [evalOp, callFn_eq]
+  | call2 t k1 k2 =>
+    simp only [evalOp, callFn_eq]
 
 
 omit hA in
